@@ -21,18 +21,23 @@ RULE = ("cases = random expression trees over the C/C++ operator grammar (all bi
         "`void f(...) { x = <expr>; }`, in C and C++ mode; non-trivial = the tree has >= 2 operators of different levels or a "
         "parenthesis that changes the grouping")
 EXPLANATION = ("Proved in Lean (unbounded, generic in the level table): for every parse tree of the expression grammar over a well-formed "
-               "table - binary levels, ?:, assignment, comma, parentheses anywhere the grammar allows - the model of prepareTernaryOpForAST (x2) "
-               "+ createAst returns exactly the grammar's tree (createAst_follows_grammar; hypotheses: AST_MAX_DEPTH, and declOK = no `(` is "
-               "followed by what skipDecl takes for a declaration - proved necessary by createAst_follows_grammar_counterexample, finding F7a); "
-               "the table extracted from the working tree equals the ISO C++20/C17 table and is well-formed (decide over the whole table). "
-               "Level 'other': prefix/postfix operators, casts, calls, subscripts and member access are inside the executable model and the "
-               "correspondence (pipeline, raw createAst, prepareTernaryOpForAST, --dump, clang oracle for the specification) but not yet inside "
-               "the theorems; tokenizer passes other than prepareTernaryOpForAST are not modelled (expressions they rewrite are counted as "
-               "normalised:* and only compared model-vs-code); new/delete, lambdas, _Generic, initializer lists, templates, keywords, `.*` are "
-               "outside the model (Err.outside).")
-THEOREMS = ["Cppcheck.AstLadder.extracted_table_is_C", "Cppcheck.AstLadder.extracted_ladder_wf",
-            "Cppcheck.AstLadder.createAst_follows_grammar", "Cppcheck.AstLadder.createAst_follows_grammar_counterexample",
-            "Cppcheck.AstLadder.createAst_follows_grammar_extracted",
+               "table - binary levels, ?:, assignment, comma, prefix - ! ~ * &, parentheses anywhere the grammar allows - the model of "
+               "prepareTernaryOpForAST (x2) + createAst (the very `astOf` the driver runs) returns exactly the grammar's tree "
+               "(createAst_follows_grammar; only hypotheses: the tree is of the grammar, AST_MAX_DEPTH, and the table has skipDecl's early "
+               "return for variables, which extracted_skipDecl_guard decides for the working tree on every run; for the code before fix "
+               "1fbcd63 the statement needed declOK and createAst_follows_grammar_prefix_counterexample shows it could not be dropped). The "
+               "table extracted from the working tree equals the ISO C++20/C17 table and is well-formed (decide over the whole table). "
+               "Level 'other' because: prefix ++/--, postfix operators, casts, calls, subscripts and member access are inside the executable "
+               "model and every correspondence (pipeline, raw createAst, prepareTernaryOpForAST) but not inside the theorems; the mapping of "
+               "real tokens to the model's token classes is trusted (flags printed by the harness); tokenizer passes other than "
+               "prepareTernaryOpForAST are not modelled (expressions they rewrite are counted as normalised:tokenizer-rewrite and only compared "
+               "model-vs-code); `--dump` (the property's observation point) and the clang oracle of the specification run in the thorough tier "
+               "only, the quick tier reads astOperand1/2 in-process; new/delete, lambdas, _Generic, initializer lists, templates, keywords, `.*` "
+               "are outside the model (Err.outside).")
+THEOREMS = ["Cppcheck.AstLadder.extracted_table_is_C", "Cppcheck.AstLadder.extracted_ladder_wf", "Cppcheck.AstLadder.extracted_skipDecl_guard",
+            "Cppcheck.AstLadder.createAst_follows_grammar", "Cppcheck.AstLadder.createAst_follows_grammar_extracted",
+            "Cppcheck.AstLadder.createAst_follows_grammar_prefix_partial", "Cppcheck.AstLadder.createAst_follows_grammar_prefix_counterexample",
+            "Cppcheck.AstLadder.declFine_extracted",
             "Cppcheck.AstLadder.ladder_roundtrip", "Cppcheck.AstLadder.ladder_respects_parens",
             "Cppcheck.AstLadder.ternary_middle_as_parenthesised", "Cppcheck.AstLadder.assign_right_assoc"]
 MODULES = ["Cppcheck.Props.C07"]
@@ -460,7 +465,7 @@ L_ASSIGN, L_UNARY, L_POSTFIX, L_PRIMARY = 1, 14, 15, 16
 PREFIX_OPS = ["-", "!", "~", "*", "&", "++", "--"]
 INT_VARS = ["a", "b", "c", "d", "e"]
 CAST_TYPES = [["int"], ["unsigned", "int"], ["long"], ["char"], ["int", "*"], ["unsigned", "char", "*"], ["double"]]
-PROLOGUE = ("struct S { int m; int n; struct S *k; }; int g(int, int); int h(void); int g1(int);\n"
+PROLOGUE = ("struct S { int m; int n; struct S *k; }; int g(int, int); int h(void); int g1(int); typedef int T;\n"
             "void f(int a, int b, int c, int d, int e, int *p, int *r, struct S s, struct S *q, int (*fp)(int), int x) {\n")
 
 
@@ -743,6 +748,8 @@ def run_cases(ctx, res, exe, drv, cases, name, count=True):
             nt = False
         else:
             impl_c = "ok | " + " ; ".join(p[1])
+            if c.get("probe") and (c["probe"] + "/0") not in impl_c and c["probe"] in tok_strs(p[0]):
+                c["fired"] = True          # skipDecl jumped over the name: it is a token but in no tree
             mm = re.match(r"^ok rest=(\d+) \|(.*)$", m)
             if mm:
                 model_c = "ok | " + " ; ".join(t.strip() for t in mm.group(2).split(" ;") if t.strip())
@@ -1171,6 +1178,12 @@ def run(ctx, res):
     except Unrecognised as ex:
         res.oblig("T:ladder-extracted", False, "translation", "unrecognised shape: %s" % ex)
     core.prove(ctx, res, MODULES, THEOREMS)
+    res.assumptions += [
+        "the driver's classification of real tokens into the model's token classes (flags printed by harness/c07.cpp) is trusted; validated by the correspondences only",
+        "theorems cover binary levels, ?:, assignment, comma, parentheses and prefix - ! ~ * &; prefix ++/--, postfix, casts, calls, subscripts, member access: model + correspondence only",
+        "tokenizer passes other than prepareTernaryOpForAST are not modelled; expressions they rewrite are compared model-vs-code only",
+        "isoTable (the ISO C++20 [expr] / C17 6.5 table in Lean) and the python specification are hand-written; the latter is checked against clang in the thorough tier",
+    ]
     drv = ctx.driver("drv_c07")
     exe = ctx.harness("c07")
 
@@ -1197,6 +1210,22 @@ def run(ctx, res):
         res.count("parens:%s" % ("minimal" if extra == 0 else "redundant"))
     fails = run_cases(ctx, res, exe, drv, cases, "pipeline")
     report_fails(res, fails, "generated")
+    # the non-variable side of skipDecl's early return: behind `(` an undeclared name (varId 0, could be a type) or a typedef name;
+    # there skipDecl must still fire - no grammar expectation (the name may be a type), model-vs-code only
+    nv = []
+    for i in range(60 if thorough else 24):
+        lang = "cpp" if i % 2 else "c"
+        u = rng.choice(["u1", "U", "T", "size_t", "u2"])        # T: typedef int T (PROLOGUE); the others are undeclared
+        v, w, z = rng.choice(INT_VARS), rng.choice(INT_VARS + ["fp"]), rng.choice(INT_VARS)
+        shape = rng.choice([
+            ["1", "+", "(", u, "*", w, "(", v, ")", ")"], ["(", u, "*", v, "=", z, ")", "+", "1"], ["1", "+", "(", u, "&", v, "=", z, ")"],
+            ["g", "(", u, "*", w, "(", v, ")", ",", z, ")"], ["(", u, "*", v, ")", "+", z], ["2", "*", "(", u, "*", "*", v, "=", z, ")"],
+            ["(", u, ")", "*", v], ["(", u, "*", ")", "p"], ["(", v, "*", u, "(", z, ")", ")", "-", "1"], ["(", "(", u, "*", v, "=", z, ")", ")", "-", z]])
+        nv.append(dict(lang=lang, toks=shape, expect=None, nontrivial=True, probe=u))
+        res.count("nonvar-after-paren:" + ("typedef" if u == "T" else "undeclared"))
+    fails = run_cases(ctx, res, exe, drv, nv, "nonvariable-after-parenthesis")
+    res.extra["nonvariable_after_paren_skipDecl_fired"] = sum(1 for c in nv if c.get("fired"))
+    report_fails(res, fails, "non-variable after parenthesis")
     # every pair of binary operators / ?: in both groupings (exhaustive over the table)
     pc = pair_cases()
     fails = run_cases(ctx, res, exe, drv, pc, "operator-pairs")
@@ -1251,19 +1280,24 @@ MUTATIONS = [
        "            state.assign++;\n            const Token *tok1 = tok->next();\n            compileBinOp(tok, state, compileLogicOr);")]),
     ("M7 isPrefixUnary: `)` of a non-cast counts as prefix context", "tokenlist.cpp",
      [('    return tok->strAt(-1) == ")" && iscast(tok->linkAt(-1), cpp);\n}', '    return tok->strAt(-1) == ")";\n}')]),
+    ("M9 skipDecl loses the early return for variables (fix 1fbcd63 reverted)", "tokenlist.cpp",
+     [('if (!Token::Match(tok->previous(), "( %name%") || tok->varId() != 0)', 'if (!Token::Match(tok->previous(), "( %name%"))')]),
     ("M8 compileRelComp gains `==`", "tokenlist.cpp",
      [('if (Token::Match(tok, "<|<=|>=|>") && !tok->link()) {', 'if (Token::Match(tok, "<|<=|>=|>|==") && !tok->link()) {')]),
 ]
 
 
 def mutation_selftest():
-    import shutil, subprocess, random, tempfile
+    import shutil, subprocess, random, tempfile, sys
     variant = "o1"
     b = build_repo.bdir(variant)
     work = tempfile.mkdtemp(prefix="c07mut-", dir=os.path.join(core.VERIF, ".build", "tmp"))
     drv = os.path.join(core.LEAN, ".lake", "build", "bin", "drv_c07")
     try:
+        only = [a for a in sys.argv if a.startswith("M")]
         for name, fname, edits in MUTATIONS:
+            if only and name.split()[0] not in only:
+                continue
             src = open(os.path.join(core.REPO, "lib", fname), encoding="utf-8").read()
             mut = src
             for a, r in edits:
@@ -1306,12 +1340,14 @@ def mutation_selftest():
                 for i in range(1500):
                     lang = "cpp" if i % 2 else "c"
                     cases.append(mk_case(rng, lang, gen_tree(rng, rng.choice([2, 3, 4]), lang == "cpp", rng.random() < 0.5), rng.choice([0.0, 0.2])))
-                fails = run_cases(ctx, res, exe, drv, cases, "pipeline")
+                corpus = [dict(lang=c["lang"], toks=c["toks"], expect=c.get("expect"), nontrivial=True) for c in load_corpus()]
+                fails = run_cases(ctx, res, exe, drv, corpus + cases, "pipeline")
                 run_raw(ctx, res, exe, drv, 300, 600)
                 for o in res.obligations:
                     if not o["ok"]:
                         seen.append("C: %s (%s)" % (o["name"], o["detail"][:70]))
-                fails = [f for f in fails if f["key"] is None]
+                known = set(e["key"] for e in core.load_known() if e.get("property") == "C07" and e.get("kind") == "finding")
+                fails = [f for f in fails if f["key"] not in known]
                 if fails:
                     seen.append("P_impl: %d generated expressions get a wrong tree, e.g. %s" % (len(fails), fails[0]["desc"][:60]))
             finally:
